@@ -574,11 +574,8 @@ func (e *Engine) findIndicesReverseSuffix(haystack []byte) (int, int, bool) {
 		return e.findIndicesNFA(haystack)
 	}
 	atomic.AddUint64(&e.stats.DFASearches, 1)
-	match := e.reverseSuffixSearcher.Find(haystack)
-	if match == nil {
-		return -1, -1, false
-	}
-	return match.Start(), match.End(), true
+	// FindIndicesAt(…, 0) is Find without the Match allocation.
+	return e.reverseSuffixSearcher.FindIndicesAt(haystack, 0)
 }
 
 // findIndicesReverseSuffixAt searches using reverse suffix optimization from position - zero alloc.
@@ -596,11 +593,8 @@ func (e *Engine) findIndicesReverseSuffixSet(haystack []byte) (int, int, bool) {
 		return e.findIndicesNFA(haystack)
 	}
 	atomic.AddUint64(&e.stats.DFASearches, 1)
-	match := e.reverseSuffixSetSearcher.Find(haystack)
-	if match == nil {
-		return -1, -1, false
-	}
-	return match.Start(), match.End(), true
+	// FindIndicesAt(…, 0) is Find without the Match allocation.
+	return e.reverseSuffixSetSearcher.FindIndicesAt(haystack, 0)
 }
 
 // findIndicesReverseSuffixSetAt searches using reverse suffix SET optimization from position - zero alloc.
@@ -618,11 +612,8 @@ func (e *Engine) findIndicesReverseInner(haystack []byte) (int, int, bool) {
 		return e.findIndicesNFA(haystack)
 	}
 	atomic.AddUint64(&e.stats.DFASearches, 1)
-	match := e.reverseInnerSearcher.Find(haystack)
-	if match == nil {
-		return -1, -1, false
-	}
-	return match.Start(), match.End(), true
+	// FindIndicesAt(…, 0) is Find without the Match allocation.
+	return e.reverseInnerSearcher.FindIndicesAt(haystack, 0)
 }
 
 // findIndicesReverseInnerAt searches using reverse inner optimization from position - zero alloc.
